@@ -394,6 +394,10 @@ func (w *walReader) ReadBytes() ([]byte, error) {
 	payload := make([]byte, payloadLen)
 	_, err = io.ReadAtLeast(w.reader, payload, int(payloadLen))
 	if err != nil {
+		if err == io.EOF {
+			// header was read; missing payload is a torn record
+			err = io.ErrUnexpectedEOF
+		}
 		return nil, errors.WithStack(err)
 	}
 
